@@ -256,16 +256,27 @@ def run_binary_representation(ctx):
             reqs.append(f'C06.binary {name} {et} {eu} {len(ids) + 5}')
             meta.append((case, want))
             ctx.count('binary-representation')
+            # add / mul / maximum go through `commutative` (the sparsity shortcut): its transcription Bn.commutative must give the same
+            # representation — and the same as Bn.binary (theorem C06s.commutative_eq_binary)
+            IDENT = {'add': 0.0, 'mul': 1.0, 'maximum': -math.inf}
+            if name in IDENT:
+                reqs.append(f'C06.commutative {name} {et} {eu} {enc_ext(IDENT[name])} {len(ids) + 5}')
+                meta.append((dict(case, via='commutative'), want))
+                ctx.count('commutative-representation')
     for (case, want), rep in zip(meta, ctx.driver.ask_many(reqs)):
         if isinstance(rep, Exception):
             raise rep
         toks = rep.split()
         i = 0; L = int(toks[i]); phys = toks[i + 1:i + 1 + L]; i += 1 + L
         P = int(toks[i]); pax = toks[i + 1:i + 1 + 2 * P]; i += 1 + 2 * P
+        if case.get('via') == 'commutative':
+            if toks[-1] != 'T':
+                ctx.disagree('Bn.commutative differs from Bn.binary (the theorem C06s.commutative_eq_binary would be false)', case, 'T', toks[-1])
+            toks = toks[:-1]
         mp = [str(L)] + phys + [str(P)] + sum((['P', pax[2 * j], pax[2 * j + 1]] for j in range(P)), []) + toks[i:-1]
         ctx.evaluations += 1
         if canon(mp) != canon(want.split()):
-            ctx.disagree('Bn.binary (expansion + cell-by-cell operation): representation of the result', case, want, ' '.join(mp))
+            ctx.disagree('Bn.binary / Bn.commutative: representation of the result', case, want, ' '.join(mp))
         elif toks[-1] != 'T':
             ctx.disagree('Bn.binary: the model\'s result is not well formed (PT.wf)', case, want, rep)
 
